@@ -1054,6 +1054,12 @@ func (ex *Exec) goStmt(fr *Frame, x *ssa.Go) {
 			ex.oblige("pre", ex.siteOf(x, fmt.Sprintf("go %s:%03d", relName(fn), i)), x.Pos(), "precondition of goroutine "+relName(fn)+": "+rq.Text, ex.evalBool(rq.E, env))
 		}
 	}
+	// obligations the function under verification attaches to its go statements:  callsite go <fn> requires e
+	if ex.contract != nil && fr.fn == ex.root {
+		for i, cs := range ex.contract.CallSites["go"] {
+			ex.oblige("callsite", ex.siteOf(x, fmt.Sprintf("go:%03d", i)), x.Pos(), "at every go statement: "+cs.Text, ex.softBool(cs.E, ex.envFor(fr, nil)))
+		}
+	}
 	// variables captured by the goroutine may change at any time from now on
 	for _, b := range free {
 		if cp, ok := b.(CellPtr); ok {
